@@ -36,7 +36,7 @@ func LoadRepo(repo, arch string, tags ...string) (*Prog, error) {
 }
 
 // LoadControls loads the positive-control module of the checker (testdata/controls).
-func LoadControls(dir, arch string) (*Prog, error) { return loadDir(dir, arch, 3) }
+func LoadControls(dir, arch string) (*Prog, error) { return loadDir(dir, arch, 4) }
 
 func loadDir(repo, arch string, wantPkgs int, tags ...string) (*Prog, error) {
 	key := repo + "|" + arch + "|" + strings.Join(tags, ",")
